@@ -5,6 +5,7 @@ mod c18;
 mod dec;
 mod lab;
 mod c10;
+mod c12;
 mod c14;
 mod c16;
 mod c19;
@@ -18,6 +19,7 @@ fn main() {
         "c04" => c04::run(&args),
         "c18" => c18::run(&args),
         "c10" => c10::run(&args),
+        "c12" => c12::run(&args),
         "c14" => c14::run(&args),
         "c16" => c16::run(&args),
         "c19" => c19::run(&args),
